@@ -737,6 +737,13 @@ class Context(object):
         """
         for value in list(context.values()):
             if ismacro(value):
+                # Parameters and registers store their value on their class.
+                # Give this context its own subclass so that an assignment
+                # doesn't change the value seen by other documents.
+                if isinstance(value, type) and \
+                   issubclass(value, plasTeX.ParameterCommand):
+                    value = type(value.__name__, (value,),
+                                 {'__module__': value.__module__})
                 self[macroName(value)] = value
 #           elif isinstance(value, Context):
 #               self.importMacros(value)
